@@ -19,12 +19,15 @@ type storeProfile struct {
 	pCrashSave           int
 	pRecreate            int // % chance of an explicit delete-then-recreate pattern per round
 	pObserve             int
+	pFork                int // % chance that a saved round is executed again at the same version with other transactions
+	pBump                int // % chance of a SetVersion bump of the block trie inside a round
+	pSync                int // % chance that a round starts with a MergeDB from a donor store
 }
 
 var (
-	profC03 = storeProfile{name: "c03", minRounds: 1, maxRounds: 3, maxTxns: 4, pDel: 35, pPrune: 10, pCrashSave: 5, pRecreate: 15, pObserve: 60}
-	profC04 = storeProfile{name: "c04", minRounds: 2, maxRounds: 5, maxTxns: 3, pDel: 35, pPrune: 15, pCrashSave: 40, pRecreate: 20, pObserve: 25}
-	profC05 = storeProfile{name: "c05", minRounds: 3, maxRounds: 6, maxTxns: 3, pDel: 45, pPrune: 60, pCrashSave: 10, pRecreate: 50, pObserve: 25}
+	profC03 = storeProfile{name: "c03", minRounds: 1, maxRounds: 3, maxTxns: 4, pDel: 35, pPrune: 10, pCrashSave: 5, pRecreate: 15, pObserve: 60, pFork: 5, pBump: 8, pSync: 6}
+	profC04 = storeProfile{name: "c04", minRounds: 2, maxRounds: 5, maxTxns: 3, pDel: 35, pPrune: 15, pCrashSave: 40, pRecreate: 20, pObserve: 25, pFork: 8, pBump: 25, pSync: 20}
+	profC05 = storeProfile{name: "c05", minRounds: 3, maxRounds: 6, maxTxns: 3, pDel: 45, pPrune: 60, pCrashSave: 10, pRecreate: 50, pObserve: 25, pFork: 25, pBump: 8, pSync: 6}
 )
 
 type gTrie struct {
@@ -34,16 +37,19 @@ type gTrie struct {
 }
 
 type storeGen struct {
-	r        *rand.Rand
-	prof     storeProfile
-	ops      []string
-	keys     []string
-	tries    map[int]*gTrie
-	nextID   int
-	version  int
-	saved    []int // versions of the saved rounds
-	savedMap map[string]string
-	pruned   int
+	r            *rand.Rand
+	prof         storeProfile
+	ops          []string
+	keys         []string
+	tries        map[int]*gTrie
+	nextID       int
+	version      int
+	saved        []int // versions of the saved rounds
+	savedMap     map[string]string
+	savedMaps    []map[string]string // content of every saved round (parallel to saved)
+	superseded   []bool
+	usedVersions map[int]bool
+	pruned       int
 }
 
 var prefixCuts = []int{0, 1, 2, 3, 5, 8, 16, 31, 32, 61, 62, 63}
@@ -283,15 +289,70 @@ func (g *storeGen) txn() {
 	}
 }
 
-func (g *storeGen) round() {
-	g.version += 1 + g.r.Intn(3)
-	g.emit("round %d", g.version)
+func (g *storeGen) round(fork bool) {
+	if !fork {
+		g.version += 1 + g.r.Intn(3)
+	}
+	// the round continues from the latest saved round below its version that was not executed again
+	for i := range g.saved {
+		if g.saved[i] >= g.version {
+			g.superseded[i] = true
+		}
+	}
+	g.savedMap = map[string]string{}
+	for i := len(g.saved) - 1; i >= 0; i-- {
+		if !g.superseded[i] {
+			g.savedMap = g.savedMaps[i]
+			break
+		}
+	}
+	kind := ""
+	if len(g.saved) == 0 {
+		// the first round of a case may run on a parent that is not over a LevelNodeDB
+		switch x := g.r.Intn(100); {
+		case x < 10:
+			kind = " mem"
+		case x < 20:
+			kind = " pndb"
+		}
+	}
+	g.usedVersions[g.version] = true
+	g.emit("round %d%s", g.version, kind)
 	blk := &gTrie{id: 0, parent: 0, content: map[string]string{}}
 	for k, v := range g.savedMap {
 		blk.content[k] = v
 	}
 	g.tries = map[int]*gTrie{0: blk}
 	g.nextID = 1
+	if g.r.Intn(100) < g.prof.pSync {
+		// state sync: the block trie takes over a donor's nodes, which keep the donor's origin
+		// the donor's origin is below the version of the merging round (state is synced from the past; a node of a
+		// FUTURE origin could be killed now and re-created identically when that version comes) and is not a version
+		// this store ever executed a round at (a synced node identical to one this store once recorded dead would be
+		// live again under a dead key)
+		w := -1
+		for c := g.version - 1; c >= 0 && c >= g.version-4; c-- {
+			if !g.usedVersions[c] {
+				w = c
+				break
+			}
+		}
+		if w >= 0 {
+			n := 1 + g.r.Intn(4)
+			blk.content = map[string]string{}
+			var kvs []string
+			for i := 0; i < n; i++ {
+				k := g.keys[g.r.Intn(len(g.keys))]
+				if _, dup := blk.content[k]; dup {
+					continue
+				}
+				v := g.value(k)
+				blk.content[k] = v
+				kvs = append(kvs, ptok(k)+"="+v)
+			}
+			g.emit("syncfrom %d %s", w, strings.Join(kvs, ","))
+		}
+	}
 	if g.r.Intn(100) < 30 {
 		g.someOps(blk, 3)
 	}
@@ -314,6 +375,12 @@ func (g *storeGen) round() {
 	}
 	for i, n := 0, 1+g.r.Intn(g.prof.maxTxns); i < n; i++ {
 		g.txn()
+		if !fork && len(g.tries) == 1 && g.r.Intn(100) < g.prof.pBump {
+			// the block trie is carried over a version bump before its (only) save; no child is open
+			g.version += 1 + g.r.Intn(2)
+			g.usedVersions[g.version] = true
+			g.emit("ver 0 %d", g.version)
+		}
 	}
 	g.maybeObserve(0)
 	if g.r.Intn(100) < g.prof.pCrashSave {
@@ -322,12 +389,20 @@ func (g *storeGen) round() {
 		g.emit("save")
 	}
 	g.saved = append(g.saved, g.version)
+	g.savedMaps = append(g.savedMaps, g.tries[0].content)
+	g.superseded = append(g.superseded, false)
 	g.savedMap = g.tries[0].content
 	if g.r.Intn(100) < 50 {
 		g.emit("reopen %d", g.r.Intn(len(g.saved)))
 	}
 	if g.r.Intn(100) < 25 {
 		g.emit("pstore")
+	}
+	if !fork && g.r.Intn(100) < g.prof.pFork {
+		// a competing block of the same round: executed and saved again at the same version, with other transactions,
+		// before anything above this version is pruned (the chain continues from the later execution)
+		g.round(true)
+		return
 	}
 	if g.r.Intn(100) < g.prof.pPrune {
 		// prune version: half of the time a saved version (or one below it); otherwise from the whole boundary set of
@@ -361,13 +436,13 @@ func (g *storeGen) round() {
 
 func genStoreCase(prof storeProfile) func(r *rand.Rand, tier string, idx int) []string {
 	return func(r *rand.Rand, tier string, idx int) []string {
-		g := &storeGen{r: r, prof: prof, keys: genKeyUniverse(r), version: r.Intn(4), savedMap: map[string]string{}}
+		g := &storeGen{r: r, prof: prof, keys: genKeyUniverse(r), version: r.Intn(4), savedMap: map[string]string{}, usedVersions: map[int]bool{}}
 		rounds := prof.minRounds + r.Intn(prof.maxRounds-prof.minRounds+1)
 		if tier == "thorough" && r.Intn(4) == 0 {
 			rounds += 1 + r.Intn(4)
 		}
 		for i := 0; i < rounds; i++ {
-			g.round()
+			g.round(false)
 		}
 		g.emit("pstore")
 		return g.ops
